@@ -208,3 +208,18 @@ pub fn _embassy_time_now() -> u64 {
 #[cfg(not(kani))]
 #[no_mangle]
 fn _embassy_time_schedule_wake(_at: u64, _waker: &core::task::Waker) {}
+
+/// Self-test of the SMT-LIB2 route (engine/run.py run_arith): one assertion that holds and one
+/// that does not, both depending on checked 64-bit multiplication / division by constants -
+/// the operations CBMC 6.11's SMT2 export got wrong before the engine's repair (see
+/// fix_overflow_mult). The engine requires exactly {holds: unsat, fails: sat}.
+#[cfg_attr(kani, kani::proof)]
+#[cfg_attr(not(kani), test)]
+#[cfg_attr(not(kani), ignore)]
+fn x00_q_smt_selftest() {
+    let x = any_u32() as u64;
+    let y = x * 11 / 10;
+    vassert!(y >= x && y <= x + x / 10 + 1, "ROLE:SELFTEST-holds");
+    let z = x * 176 / 100;
+    vassert!(z != 3413179140, "ROLE:SELFTEST-fails(x = 1939306330)");
+}
